@@ -1086,13 +1086,15 @@ Definition process_classical_arg (t : ctype) (fname : string) (actual : expr) : 
       | None => ret tt
       end;;;
       v <- eval0 actual false None;;
+      (* a type without a width has the width of a declaration: bool 1, otherwise 32 *)
       sz <- (match size_of_ctype t with
-             | None => ierr KAttr
-             | Some None => ret None
+             | None | Some None => ret (match t with TBool => 1 | _ => 32 end)
              | Some (Some e) => z <- eval0 e false None;;
-                                match z with VInt n => ret (Some n) | _ => unm "non-int formal size" end
+                                match z with VInt n => ret n | _ => unm "non-int formal size" end
              end);;
-      ret (fname, mkVar (kind_of_ctype t) sz None (match v with VNone => VVNone | _ => VVScalar v end) false false false)
+      (* the actual is assigned to the formal: converted to and range-checked against its type *)
+      cv <- assign_value (kind_of_ctype t) (Some sz) v;;
+      ret (fname, mkVar (kind_of_ctype t) (Some sz) None (VVScalar cv) false false false)
   end.
 
 (* transformer.get_target_qubits *)
